@@ -171,6 +171,9 @@ def plan_C04(run):
     upto = q(run, 4, 5)
     campaign(run, "perm-groups", {"C04"}, lambda s, r: drivers.perm_groups(s, r, n, "C04", ops=("rate",), exhaustive_upto=upto, max_teams=q(run, 6, 8)))
     run.require_classes(["group:C04:perm", "kind=PL", "kind=BTF", "kind=BTP", "kind=TMF", "kind=TMP", "ties", "teams"], "perm-groups")
+    # stratified: every model x every exact relation among the sigmas of a team (a member at the team's mean variance, a team
+    # variance that is a perfect square, all equal), every rotation of that team's members
+    campaign(run, "sigma-patterns", {"C04"}, lambda s, r: drivers.pattern_groups(s, r, "C04"))
     return {"rule": "a game and its presentations under team permutations (all n! for n <= %d, sampled above) with members "
                     "permuted; posterior of every player compared across presentations within twice the budget; partial pairing: "
                     "only permutations keeping tied teams in relative order" % upto}
@@ -439,6 +442,8 @@ def plan_C16(run):
     n = q(run, 100, 2000)
     campaign(run, "scale-groups", {"C16"}, lambda s, r: drivers.scale_groups(s, r, n))
     run.require_classes(["group:C16:scaled", "group:C16:shifted"], "scale-groups")
+    # stratified: every model x limit_sigma x tau with newcomers (players exactly at the model's own prior) in the game
+    campaign(run, "newcomers", {"C16"}, lambda s, r: drivers.newcomer_groups(s, r))
     construct_stage(run, {"C16"})
     return {"rule": "games rescaled by k in {2^-10, 2^10, 1e-3, 0.3, 7, 1e3, random} (model mu/sigma/beta/tau with them) and "
                     "shifted by constants; rate for PL/BT within twice the budget, all predictions within 1e-12"}
